@@ -135,6 +135,20 @@ def intern_matrix(w, A, want_inverse):
         inv = S.SymArr(A.axes, {(): K.powr(A.expr, -1)}).fresh_copy() if want_inverse else None
         return inv, S.SymArr(A.axes[:-2], {(): K.fn("log", A.expr)}).fresh_copy()
     except BlockMatrix:
+        row_, col_ = A.axes[-2], A.axes[-1]
+        if (isinstance(row_, S.DSum) and isinstance(col_, S.DSum) and len(row_.parts) == 2 and len(col_.parts) == 2
+                and all(p_.unit for p_ in row_.parts) and all(p_.unit for p_ in col_.parts) and not any(isinstance(a_, S.DSum) for a_ in A.axes[:-2])):
+            # 2x2 matrix of scalars: explicit inverse and determinant (adjugate formula)
+            a11, a12, a21, a22 = A.block((0, 0)), A.block((0, 1)), A.block((1, 0)), A.block((1, 1))
+            det = K.sub(K.mul(a11, a22), K.mul(a12, a21))
+            ld = S.SymArr(A.axes[:-2], {(): K.fn("log", det)})
+            inv = None
+            if want_inverse:
+                dinv = K.powr(det, -1)
+                inv = S.SymArr(A.axes, {(0, 0): K.mul(a22, dinv), (0, 1): K.neg(K.mul(a12, dinv)),
+                                        (1, 0): K.neg(K.mul(a21, dinv)), (1, 1): K.mul(a11, dinv)}).fresh_copy()
+            w.hints_used.append("2x2 adjugate inverse")
+            return inv, ld.fresh_copy()
         if want_inverse:
             # inverse of a block matrix: opaque block atoms WITHOUT relations (nothing can be proved about them; the
             # caller's clauses on this inverse stay undischarged and must be listed as not covered)
